@@ -65,7 +65,8 @@ TReset ==
 
 CfgOf(ev) == [ty |-> ev.ty, p |-> ev.p, k |-> ev.k, topo |-> ev.topo,
               nu |-> ev.nu,
-              lim |-> ev.lim, pt |-> ev.pt, et |-> ev.et, me |-> ev.me]
+              lim |-> ev.lim, pt |-> ev.pt, et |-> ev.et, me |-> ev.me,
+              ko |-> ev.ko]
 
 TCfg ==
     /\ Ev.e = "Cfg"
